@@ -6,7 +6,7 @@ from fractions import Fraction
 import numpy as np
 import z3
 
-from .core import (Sym, SymBool, SymInt, Engine, EngineError, PathAbort, boolterm, lift,
+from .core import (Sym, SymBool, SymInt, Engine, EngineError, PathAbort, boolterm, lift, realval,
                    engine, set_engine, uf_apply)
 
 REGISTRY = {}
@@ -54,6 +54,7 @@ class Ctx(object):
         self.inputs = {}      # name -> z3 const
         self.goals = []       # (name, term|bool)
         self.covered = set()
+        self.hints = []
         self.cover_conds = []
         self.regions = {}
         self.notes = {}
@@ -64,10 +65,12 @@ class Ctx(object):
         return self.mode == 'sym'
 
     # ---- inputs
-    def real(self, name, gt=None, ge=None, lt=None, le=None):
+    def real(self, name, gt=None, ge=None, lt=None, le=None, hint=None):
         if self.sym:
             v = z3.Real(name)
             self.inputs[name] = v
+            if hint is not None:
+                self.hints.append(z3.And(v >= realval(hint[0]), v <= realval(hint[1])))
             s = Sym(v)
         else:
             if name not in self.values:
